@@ -644,7 +644,7 @@ def main(chk: Check) -> None:
     _selftest()
     for c in _REGRESSIONS:
         chk.case("bodies", c, run_case)
-    chk.explore("bodies", body_cases, run_case, quick=1800, thorough=30000)
-    chk.explore("bombs", bomb_cases, run_case, quick=100, thorough=2500)
+    chk.explore("bodies", body_cases, run_case, quick=2700, thorough=30000)
+    chk.explore("bombs", bomb_cases, run_case, quick=150, thorough=2500)
     if not chk.quick or chk.replay is not None:
         chk.explore("chunked", chunked_cases, run_case, quick=1, thorough=160)
